@@ -7,6 +7,13 @@ namespace Fv.Cache.Conc
 theorem upd_other {α} (f : Nat → α) (i j : Nat) (a : α) (h : j ≠ i) : upd f i a j = f j := by simp [upd, h]
 theorem upd_apply {α} (f : Nat → α) (i j : Nat) (a : α) : upd f i a j = if j = i then a else f j := rfl
 
+theorem step_step0 {c : Cfg} {s s' : State} {t : Nat} {l : Label} (h : step c s t l = some s') :
+    step0 c s t l = some s' := by
+  unfold step at h
+  split at h
+  · simp at h
+  · exact h
+
 /-! ### sums -/
 
 @[simp] theorem sumF_nil (f : Nat → Int) : sumF [] f = 0 := rfl
